@@ -42,7 +42,12 @@ RULE = ("findap: signals from a step grammar (real jumps with one dominant step 
         "Rayleigh-peak expectation, exact scaling (c = +-2^k: psd c^2, peakamp |c|, di_sig "
         "|c|^b, counts unchanged; general c to 1e-6).  Non-trivial: findap >= 3 reversals and a "
         "plateau or sub-tolerance step; binify a cycle on a bin edge or dropped by the bins; "
-        "fdepsd >= 10 cycles at every frequency; distinct by hash of the case.")
+        "fdepsd >= 10 cycles at every frequency; distinct by hash of the case.  Confirmed "
+        "defects are decided in isolated parts and skipped (labelled) in the main ones: "
+        "findap_accel_tail (accelerated findap reads an unassigned local when the first real "
+        "change is the last sample), fdepsd_pvelo_var_test (pvelo var_test is twice the "
+        "variance), fdepsd_g2_third_tie (Amax/3 cut-off decided by round-off when nbins % 3 == 0), "
+        "binify_auto_roundoff (0.1 % widening of automatic bins lost to round-off).")
 ASSUME = ["numba is absent: the accelerated findap is the source text of the `else:` branch of "
           "cyclecount.py run un-jitted with numba_bool = np.bool_ (a jitted build would not raise "
           "UnboundLocalError for an unassigned local but read an undefined value)",
@@ -101,6 +106,10 @@ def _accel():
                     if isinstance(n, ast.FunctionDef) and n.name == "findap":
                         accel = (test, branch) in (("notHAVE_NUMBA", "else"), ("HAVE_NUMBA", "if"))
                         found["accel" if accel else "default"] = n
+        if not found and any(isinstance(n, ast.FunctionDef) and n.name == "findap"
+                             for n in ast.parse(src).body):
+            _ACCEL = cc.findap          # a tree with one unconditional definition
+            return _ACCEL
         if set(found) != {"accel", "default"}:
             raise env.HarnessError("cyclecount.py: cannot locate the two findap definitions "
                                    f"(found {sorted(found)})")
